@@ -19,7 +19,7 @@ built-in type of `w` bits, for any `w ≥ 1`; types narrower than `int` promote 
   `clang` = `__clang__` (the `countr_zero` and `countl_rsb` specialisations are GCC-only).  The
   specialisations exist for `unsigned int` (32 bits) and `unsigned long` / `unsigned long long` (64 bits).
 * counts are C++ `int`s; they are computed here in ℤ.  Every count (and every intermediate `± 1`) lies in
-  `[-1, w + 1]` (theorems `*_range` in C18), so no `int` operation can overflow for any width below `2^31 - 1`.
+  `[-1, w + 1]` (`counts_le_width`, `value_bits_le_digits` in C18), so no `int` operation can overflow for any width below `2^31 - 1`.
 
 `AsFound.*` keeps the three definitions as they were before the `fix:` commits (rotl, rotr,
 GCC `countr_zero(unsigned)`), for the refutation theorems of C18.
